@@ -14,6 +14,10 @@ type attackAnchors struct {
 	Attack, Loop, Shutdown, Worker, Hit, HitDefer, Stop *ssa.Function
 	Results, Ticks, WG, Workers, Atk                    ssa.Value // cells (Allocs) in Attack
 	Pace                                                *ssa.Call
+	Spawns                                              []spawnSite
+	Offers                                              []tickOffer
+	Shutdown4                                           []shutdownEvent
+	ShutdownRegistered                                  bool
 	problems                                            []string
 }
 
@@ -66,62 +70,42 @@ func resolveAttack(c *Ctx) *attackAnchors {
 		bad("no closure of Attack invokes Pacer.Pace")
 		return a
 	}
-	// shutdown: the closure deferred by the loop
+	// shutdown: the closure deferred by the loop (kept for reporting; the events are what the rules use)
 	eachInstr(a.Loop, func(i ssa.Instruction) {
 		if d, ok := i.(*ssa.Defer); ok {
-			if f := closureOf(d.Call.Value); f != nil {
+			if f := closureOf(d.Call.Value); f != nil && f.Parent() != nil && a.Shutdown == nil {
 				a.Shutdown = f
 			}
 		}
 	})
-	if a.Shutdown == nil {
-		bad("the attack loop defers no closure")
-	}
-	// worker: callee of go statements receiving the results channel
-	for _, f := range []*ssa.Function{a.Attack, a.Loop} {
-		eachInstr(f, func(i ssa.Instruction) {
-			g, ok := i.(*ssa.Go)
-			if !ok {
-				return
-			}
-			callee := g.Call.StaticCallee()
-			if callee == nil || callee == a.Loop {
-				return
-			}
-			for _, arg := range g.Call.Args {
-				if a.Results != nil && valueOrCell(arg) == a.Results {
-					if a.Worker != nil && a.Worker != callee {
-						bad("several different worker functions receive the results channel")
-					}
-					a.Worker = callee
-				}
-			}
-		})
+	// worker: callee of go statements (anywhere under Attack) receiving the results channel
+	for _, g := range a.workerGos() {
+		callee := g.Call.StaticCallee()
+		if a.Worker != nil && a.Worker != callee {
+			bad("several different worker functions receive the results channel")
+		}
+		a.Worker = callee
 	}
 	if a.Worker == nil {
 		bad("no go statement passes the results channel to a worker")
 		return a
 	}
-	// ticks cell: channel of the send state of the loop's selects
-	eachInstr(a.Loop, func(i ssa.Instruction) {
-		if s, ok := i.(*ssa.Select); ok {
-			for _, st := range s.States {
-				if st.Dir == types.SendOnly {
-					if cell := loadedCell(st.Chan); cell != nil {
-						if a.Ticks != nil && a.Ticks != cell {
-							bad("selects in the loop send on different channels")
-						}
-						a.Ticks = cell
-					}
-				}
+	// ticks cell: the other channel handed to the worker
+	for _, g := range a.workerGos() {
+		for _, arg := range g.Call.Args {
+			if _, isChan := arg.Type().Underlying().(*types.Chan); !isChan {
+				continue
 			}
-		}
-		if s, ok := i.(*ssa.Send); ok {
-			if cell := loadedCell(s.Chan); cell != nil && a.Ticks == nil {
-				a.Ticks = cell
+			cell := valueOrCell(arg)
+			if cell == a.Results || cell == nil {
+				continue
 			}
+			if a.Ticks != nil && a.Ticks != cell {
+				bad("workers are given different tick channels")
+			}
+			a.Ticks = cell
 		}
-	})
+	}
 	if a.Ticks == nil {
 		bad("cannot identify the ticks channel")
 	}
@@ -156,6 +140,9 @@ func resolveAttack(c *Ctx) *attackAnchors {
 			}
 		}
 	})
+	a.Spawns = a.resolveSpawns()
+	a.Offers = a.resolveOffers()
+	a.Shutdown4, a.ShutdownRegistered = a.resolveShutdown()
 	return a
 }
 
@@ -233,11 +220,14 @@ func runC02(c *Ctx) {
 }
 
 func isCloseOf(i ssa.Instruction, cell ssa.Value) bool {
-	call, ok := i.(*ssa.Call)
-	if !ok || callName(&call.Call) != "builtin:close" || len(call.Call.Args) != 1 {
+	call, ok := i.(ssa.CallInstruction)
+	if !ok || callName(call.Common()) != "builtin:close" || len(call.Common().Args) != 1 {
 		return false
 	}
-	return valueOrCell(call.Call.Args[0]) == cell
+	if _, isGo := i.(*ssa.Go); isGo {
+		return false
+	}
+	return valueOrCell(call.Common().Args[0]) == cell
 }
 
 func isStopchLoad(v ssa.Value) bool {
@@ -253,70 +243,48 @@ func isStopchLoad(v ssa.Value) bool {
 }
 
 func c02ShutdownOrder(c *Ctx, a *attackAnchors) {
-	const rule = "the closure deferred by the attack loop performs close(ticks) → wg.Wait() → close(results) → a.Stop() in this order on every path, and is registered before any exit of the loop"
-	key := "shutdown-order:" + shortFn(a.Shutdown)
-	var ev [4]ssa.Instruction
-	var cnt [4]int
-	eachInstr(a.Shutdown, func(i ssa.Instruction) {
-		switch {
-		case isCloseOf(i, a.Ticks):
-			ev[0], cnt[0] = i, cnt[0]+1
-		case isCallTo(i, "(*sync.WaitGroup).Wait") && valueOrCell(i.(ssa.CallInstruction).Common().Args[0]) == a.WG:
-			ev[1], cnt[1] = i, cnt[1]+1
-		case isCloseOf(i, a.Results):
-			ev[2], cnt[2] = i, cnt[2]+1
-		case isCallTo(i, "(*lib.Attacker).Stop"):
-			ev[3], cnt[3] = i, cnt[3]+1
-		}
-	})
+	const rule = "what the attack loop defers executes close(ticks) → wg.Wait() → close(results) → a.Stop(), each exactly once and in this order (one deferred closure, or separate defers in reverse), and is registered before any exit of the loop"
+	key := "shutdown-order:" + shortFn(a.Loop)
 	names := []string{"close(ticks)", "wg.Wait()", "close(results)", "a.Stop()"}
-	for k := range ev {
+	var cnt [4]int
+	var sites []string
+	for _, e := range a.Shutdown4 {
+		cnt[e.Kind]++
+		sites = append(sites, c.at(e.Instr))
+	}
+	for k := range cnt {
 		if cnt[k] != 1 {
-			c.Fail(key, rule, fmt.Sprintf("%s occurs %d times in the shutdown closure, want exactly 1", names[k], cnt[k]), c.fnAt(a.Shutdown))
+			c.Fail(key, rule, fmt.Sprintf("%s is deferred %d times by the loop, want exactly 1", names[k], cnt[k]), c.fnAt(a.Loop))
 			return
 		}
 	}
-	for k := 0; k < 3; k++ {
-		if !instrDominates(ev[k], ev[k+1]) {
-			c.Fail(key, rule, fmt.Sprintf("%s does not precede %s on every path", names[k], names[k+1]), c.at(ev[k]), c.at(ev[k+1]))
+	for k, e := range a.Shutdown4 {
+		if e.Kind != k {
+			c.Fail(key, rule, fmt.Sprintf("shutdown runs %s before %s", names[e.Kind], names[k]), sites...)
 			return
 		}
 	}
-	// every event is executed on every path to return (must-pass)
-	for k := range ev {
-		entry := a.Shutdown.Blocks[0].Instrs[0]
-		set := explore(entry, true, func(i ssa.Instruction) bool { return i == ev[k] })
+	// inside a deferred closure every event is on every path
+	for _, e := range a.Shutdown4 {
+		fn := e.Instr.Parent()
+		if fn == a.Loop {
+			continue
+		}
+		set := explore(fn.Blocks[0].Instrs[0], true, func(i ssa.Instruction) bool { return i == e.Instr })
 		if len(returnsIn(set)) > 0 {
-			c.Fail(key, rule, names[k]+" can be skipped on some path of the shutdown closure", c.at(ev[k]))
+			c.Fail(key, rule, names[e.Kind]+" can be skipped on some path of the deferred shutdown", c.at(e.Instr))
 			return
 		}
 	}
-	c.Pass(key, rule, "order verified on the single path", c.at(ev[0]), c.at(ev[1]), c.at(ev[2]), c.at(ev[3]))
+	c.Pass(key, rule, "order verified", sites...)
 
-	// registration: the Defer is in the loop's entry block before any instruction that can leave
-	const rule2 = "the shutdown closure is deferred in the loop goroutine's entry block, before anything that can return or panic"
-	var def ssa.Instruction
-	eachInstr(a.Loop, func(i ssa.Instruction) {
-		if d, ok := i.(*ssa.Defer); ok && closureOf(d.Call.Value) == a.Shutdown {
-			def = i
-		}
-	})
-	okReg := def != nil && def.Block() == a.Loop.Blocks[0]
-	if okReg {
-		for _, i := range a.Loop.Blocks[0].Instrs[:indexIn(def)] {
-			switch i.(type) {
-			case *ssa.MakeClosure, *ssa.Alloc, *ssa.Store, *ssa.UnOp:
-			default:
-				okReg = false
-			}
-		}
-	}
-	c.Check(okReg, "shutdown-registered:"+shortFn(a.Loop), rule2, "deferred first", "the defer of the shutdown closure is not the first effect of the loop goroutine", c.fnAt(a.Loop))
+	const rule2 = "the shutdown is deferred in the loop goroutine's entry block, before anything that can return or panic"
+	c.Check(a.ShutdownRegistered, "shutdown-registered:"+shortFn(a.Loop), rule2, "deferred first", "the shutdown is not deferred as the first effect of the loop goroutine", c.fnAt(a.Loop))
 	// and the loop goroutine is started exactly once by Attack
 	n := 0
 	var goSite ssa.Instruction
 	eachInstr(a.Attack, func(i ssa.Instruction) {
-		if g, ok := i.(*ssa.Go); ok && closureOf(g.Call.Value) == a.Loop {
+		if g, ok := i.(*ssa.Go); ok && closureOf(resolveOnceV(g.Call.Value)) == a.Loop {
 			n++
 			goSite = i
 		}
@@ -354,10 +322,18 @@ func c02CloseSites(c *Ctx, a *attackAnchors) {
 			}
 		})
 	}
-	okR := len(resultCloses) == 1 && resultCloses[0].Parent() == a.Shutdown && isCloseOf(resultCloses[0], a.Results)
-	c.Check(okR, "close-once:lib.results", rule, "single close in the shutdown closure", fmt.Sprintf("%d close sites on *Result channels", len(resultCloses)), c.atsOr(resultCloses, a.Shutdown)...)
-	okT := len(tickCloses) == 1 && tickCloses[0].Parent() == a.Shutdown
-	c.Check(okT, "close-once:lib.ticks", rule, "single close in the shutdown closure", fmt.Sprintf("%d close sites on ticks", len(tickCloses)), c.atsOr(tickCloses, a.Shutdown)...)
+	isEvent := func(i ssa.Instruction) bool {
+		for _, e := range a.Shutdown4 {
+			if e.Instr == i {
+				return true
+			}
+		}
+		return false
+	}
+	okR := len(resultCloses) == 1 && isEvent(resultCloses[0]) && isCloseOf(resultCloses[0], a.Results)
+	c.Check(okR, "close-once:lib.results", rule, "single close, in the deferred shutdown", fmt.Sprintf("%d close sites on *Result channels", len(resultCloses)), c.atsOr(resultCloses, a.Loop)...)
+	okT := len(tickCloses) == 1 && isEvent(tickCloses[0])
+	c.Check(okT, "close-once:lib.ticks", rule, "single close, in the deferred shutdown", fmt.Sprintf("%d close sites on ticks", len(tickCloses)), c.atsOr(tickCloses, a.Loop)...)
 	okS := len(stopCloses) >= 1
 	for _, s := range stopCloses {
 		if !passedToOnceDo(s.Parent()) {
@@ -418,23 +394,10 @@ func c02SendSites(c *Ctx, a *attackAnchors) {
 	okS := len(sends) == 1 && sends[0].Parent() == a.Worker
 	c.Check(okS, "single-sender:lib.results", rule, "one send site, in the worker", fmt.Sprintf("%d send sites on *Result channels (want exactly one, in %s)", len(sends), shortFn(a.Worker)), c.atsOr(sends, a.Worker)...)
 
-	// go sites
-	var goSites []ssa.Instruction
-	for _, fn := range c.P.RepoFuncs("lib") {
-		eachInstr(fn, func(i ssa.Instruction) {
-			if g, ok := i.(*ssa.Go); ok && g.Call.StaticCallee() == a.Worker {
-				goSites = append(goSites, i)
-			}
-		})
-	}
-	for k, gs := range goSites {
-		g := gs.(*ssa.Go)
-		key := fmt.Sprintf("worker-spawn:%s#%d", shortFn(g.Parent()), k)
-		if g.Parent() != a.Attack && g.Parent() != a.Loop {
-			c.Fail(key, rule, "a worker is started outside Attack and its loop", c.at(g))
-			continue
-		}
-		// args: (a, tr, atk, wg, ticks, results)
+	// spawn sites
+	for k, sp := range a.Spawns {
+		g := sp.Go
+		key := fmt.Sprintf("worker-spawn:%s#%d", shortFn(sp.Fn), k)
 		var hasWG, hasTicks, hasResults bool
 		for _, arg := range g.Call.Args {
 			switch valueOrCell(arg) {
@@ -450,7 +413,7 @@ func c02SendSites(c *Ctx, a *attackAnchors) {
 			c.Fail(key, rule, "the worker is not given this attack's WaitGroup, ticks and results", c.at(g))
 			continue
 		}
-		// preceding Add(1) in the same block, no Wait/Add in between
+		// preceding Add(1) in the go statement's block, no Wait/Done/second Add in between
 		blk := g.Block()
 		adds := 0
 		for _, i := range blk.Instrs[:indexIn(g)] {
@@ -469,17 +432,41 @@ func c02SendSites(c *Ctx, a *attackAnchors) {
 				}
 			}
 		}
-		c.Check(adds == 1, key, rule, "wg.Add(1) precedes the go statement in the same block", "go worker is not preceded by exactly one wg.Add(1) on the attack's WaitGroup in its block", c.at(g))
+		okSpawn := adds == 1
+		why := "go worker is not preceded by exactly one wg.Add(1) on the attack's WaitGroup in its block"
+		if okSpawn && sp.Helper != nil {
+			// the helper must be straight-line: every call of it starts exactly one worker
+			if len(sp.Helper.Blocks) > 2 || loopHeaderOf(g.Block()) != nil {
+				okSpawn, why = false, "the spawn helper starts a worker only on some paths or more than once"
+			}
+		}
+		c.Check(okSpawn, key, rule, "wg.Add(1) precedes the go statement in the same block", why, c.at(sp.At))
 	}
-	if len(goSites) < 2 {
-		c.Fail("worker-spawn:lib", rule, fmt.Sprintf("only %d go-sites start the worker; expected the initial loop and the on-demand spawn", len(goSites)), c.fnAt(a.Attack))
+	if len(a.Spawns) < 2 {
+		c.Fail("worker-spawn:lib", rule, fmt.Sprintf("only %d sites start a worker; expected the initial loop and the on-demand spawn", len(a.Spawns)), c.fnAt(a.Attack))
 	}
-	// total Add calls on WG equals go sites (no stray Add)
-	nAdd := 0
-	for _, fn := range []*ssa.Function{a.Attack, a.Loop, a.Shutdown} {
+	// no worker is started from anywhere else in lib
+	for _, fn := range c.P.RepoFuncs("lib") {
+		eachInstr(fn, func(i ssa.Instruction) {
+			if g, ok := i.(*ssa.Go); ok && g.Call.StaticCallee() == a.Worker {
+				under := false
+				for _, f := range withAnon(a.Attack) {
+					if f == fn {
+						under = true
+					}
+				}
+				if !under {
+					c.Fail("worker-spawn:elsewhere:"+shortFn(fn), rule, "a worker is started outside Attack", c.at(g))
+				}
+			}
+		})
+	}
+	// every wg.Add under Attack belongs to a go statement
+	nAdd, nGo := 0, len(a.workerGos())
+	for _, fn := range withAnon(a.Attack) {
 		nAdd += len(callsNamed(fn, "(*sync.WaitGroup).Add"))
 	}
-	c.Check(nAdd == len(goSites), "wg-balance:"+shortFn(a.Attack), "the WaitGroup is incremented exactly once per started worker", fmt.Sprintf("%d Add sites, %d go sites", nAdd, len(goSites)), fmt.Sprintf("%d wg.Add sites but %d go-worker sites", nAdd, len(goSites)), c.fnAt(a.Attack))
+	c.Check(nAdd == nGo, "wg-balance:"+shortFn(a.Attack), "the WaitGroup is incremented exactly once per started worker", fmt.Sprintf("%d Add sites, %d go statements", nAdd, nGo), fmt.Sprintf("%d wg.Add sites but %d go-worker statements", nAdd, nGo), c.fnAt(a.Attack))
 
 	// worker: defer Done first
 	first := a.Worker.Blocks[0].Instrs[0]
@@ -630,6 +617,22 @@ func c02SeqLockset(c *Ctx, a *attackAnchors) *seqFacts {
 				}
 			})
 		}
+		if n != 1 && sf.fn.Parent() == nil {
+			// accepted: a named helper of the package that hit calls exactly once and nobody else calls
+			n = 0
+			for _, f := range c.P.RepoFuncs("lib") {
+				eachInstr(f, func(i ssa.Instruction) {
+					if ci, ok := i.(ssa.CallInstruction); ok && ci.Common().StaticCallee() == sf.fn {
+						if call, isCall := i.(*ssa.Call); isCall && f == a.Hit {
+							n++
+							sf.site = call
+						} else {
+							n += 100
+						}
+					}
+				})
+			}
+		}
 		if n != 1 {
 			c.Fail(key, rule, "attack.seq is accessed outside hit: "+shortFn(sf.fn), c.at(accs[0]))
 			return sf
@@ -709,45 +712,51 @@ func c02SeqLockset(c *Ctx, a *attackAnchors) *seqFacts {
 		c.Fail(key, rule, "the store to attack.seq is not `seq + 1`", c.at(sf.seqStore))
 		return sf
 	}
-	// a load stored to Result.Seq, before the increment
+	// the loads of the counter that precede the increment
+	seqLoads := map[ssa.Value]bool{}
 	for _, fa := range accs {
 		for _, r := range refs(fa) {
-			if ld, ok := r.(*ssa.UnOp); ok {
-				for _, rr := range refs(ld) {
-					if st, ok := rr.(*ssa.Store); ok && st.Val == ssa.Value(ld) {
-						if dfa, ok := st.Addr.(*ssa.FieldAddr); ok && isNamedType(dfa.X.Type(), "lib", "Result") && fieldName(dfa.X.Type(), dfa.Field) == "Seq" {
-							if sf.seqLoadToResult != nil {
-								c.Fail(key, rule, "Result.Seq is assigned from attack.seq more than once", c.at(st))
-								return sf
-							}
-							sf.seqLoadToResult = ld
-							if !instrDominates(ld, sf.seqStore) {
-								c.Fail(key, rule, "Result.Seq is read after the increment", c.at(ld))
-								return sf
-							}
-						}
-					}
-				}
+			if ld, ok := r.(*ssa.UnOp); ok && instrDominates(ld, sf.seqStore) {
+				seqLoads[ld] = true
 			}
 		}
 	}
-	if sf.seqLoadToResult == nil {
-		c.Fail(key, rule, "no load of attack.seq is copied to Result.Seq", sites...)
-		return sf
-	}
-	// all stores to Result.Seq in lib's attack path: only this one
-	nSeqStores := 0
-	for _, fn := range withAnon(a.Hit) {
+	// exactly one store to Result.Seq in hit's region, fed by such a load (directly or through the helper's result)
+	var seqStores []*ssa.Store
+	for _, fn := range region(a.Hit) {
 		eachInstr(fn, func(i ssa.Instruction) {
-			if st, ok := i.(*ssa.Store); ok {
-				if dfa, ok := st.Addr.(*ssa.FieldAddr); ok && isNamedType(dfa.X.Type(), "lib", "Result") && fieldName(dfa.X.Type(), dfa.Field) == "Seq" {
-					nSeqStores++
-				}
+			if st, ok := resultFieldStore(i, "Seq"); ok {
+				seqStores = append(seqStores, st)
 			}
 		})
 	}
-	if nSeqStores != 1 {
-		c.Fail(key, rule, fmt.Sprintf("Result.Seq is stored %d times in hit", nSeqStores), sites...)
+	if len(seqStores) != 1 {
+		c.Fail(key, rule, fmt.Sprintf("Result.Seq is stored %d times in hit", len(seqStores)), sites...)
+		return sf
+	}
+	var fed ssa.Value
+	flowsFrom(seqStores[0].Val, func(v ssa.Value) bool {
+		if seqLoads[v] {
+			fed = v
+			return true
+		}
+		return false
+	})
+	if fed == nil {
+		c.Fail(key, rule, "Result.Seq is not assigned from the counter value read inside the critical section (before the increment)", c.at(seqStores[0]))
+		return sf
+	}
+	sf.seqLoadToResult = fed.(*ssa.UnOp)
+	// nothing but plain data flow lies between the load and the field: no arithmetic on the way
+	arith := false
+	flowsFrom(seqStores[0].Val, func(v ssa.Value) bool {
+		if bo, ok := v.(*ssa.BinOp); ok && bo != sf.seqStore.Val {
+			arith = true
+		}
+		return false
+	})
+	if arith {
+		c.Fail(key, rule, "the sequence number stored in the result is computed, not the counter value itself", c.at(seqStores[0]))
 		return sf
 	}
 	// find the lock/unlock delimiting the region: the Lock dominating the load, the first Unlock after the store
@@ -803,7 +812,7 @@ func c02SeqLockset(c *Ctx, a *attackAnchors) *seqFacts {
 }
 
 func c02StopInSelect(c *Ctx, a *attackAnchors) {
-	const rule = "every send on ticks in the loop is a select case whose select also receives from a.stopch, and the stopch case returns without sending; pacer-stop, duration and stop edges all return"
+	const rule = "every send on ticks in the loop is a select case whose select also receives from a.stopch, and the stopch case returns without sending; the tick is finally handed over by a blocking offer"
 	fn := a.Loop
 	var bare []ssa.Instruction
 	eachInstr(fn, func(i ssa.Instruction) {
@@ -814,64 +823,48 @@ func c02StopInSelect(c *Ctx, a *attackAnchors) {
 	if len(bare) > 0 {
 		c.Fail("stop-in-select:"+shortFn(fn), rule, "a bare send on ticks blocks forever once all workers are busy and Stop is called", c.ats(bare)...)
 	}
-	n := 0
-	eachInstr(fn, func(i ssa.Instruction) {
-		sel, ok := i.(*ssa.Select)
-		if !ok {
-			return
-		}
-		sendIdx, stopIdx := -1, -1
-		for k, st := range sel.States {
-			if st.Dir == types.SendOnly && valueOrCell(st.Chan) == a.Ticks {
-				sendIdx = k
-			}
-			if st.Dir == types.RecvOnly && isStopchLoad(st.Chan) {
-				stopIdx = k
-			}
-		}
-		if sendIdx < 0 {
-			return
-		}
-		kind := "blocking"
-		if !sel.Blocking {
-			kind = "nonblocking"
-		}
-		key := fmt.Sprintf("stop-in-select:%s:%s", shortFn(fn), kind)
-		n++
-		if stopIdx < 0 {
-			c.Fail(key, rule, "select offers the tick but does not watch a.stopch", c.at(sel))
-			return
-		}
-		// the stop case returns with no send on ticks reachable
-		blk := selectCaseBlock(sel, stopIdx)
-		if blk == nil {
-			c.Undecided(key, rule, "cannot find the block of the stopch case", c.at(sel))
-			return
-		}
-		set := exploreBlock(blk, nil)
-		for i := range set {
-			if s2, ok := i.(*ssa.Select); ok {
-				_ = s2
-				c.Fail(key, rule, "the stopch case continues the loop instead of returning", c.at(sel))
-				return
-			}
-		}
-		if len(returnsIn(set)) == 0 {
-			c.Fail(key, rule, "the stopch case reaches no return", c.at(sel))
-			return
-		}
-		c.Pass(key, rule, "stopch case returns", c.at(sel))
-	})
-	if n < 1 {
-		c.Fail("stop-in-select:"+shortFn(fn), rule, "no select sends on ticks", c.fnAt(fn))
-	}
-	// a blocking select must exist (the final hand-off)
 	hasBlocking := false
-	eachInstr(fn, func(i ssa.Instruction) {
-		if sel, ok := i.(*ssa.Select); ok && sel.Blocking {
+	for _, o := range a.Offers {
+		kind := "blocking"
+		if !o.Blocking {
+			kind = "nonblocking"
+		} else {
 			hasBlocking = true
 		}
-	})
+		key := fmt.Sprintf("stop-in-select:%s:%s", shortFn(fn), kind)
+		if !o.HasStop {
+			c.Fail(key, rule, "the tick is offered without watching a.stopch", c.at(o.At))
+			continue
+		}
+		if o.Stopped == nil || o.Sent == nil {
+			c.Undecided(key, rule, "cannot find the outcome blocks of the offer", c.at(o.At))
+			continue
+		}
+		set := exploreBlock(o.Stopped, nil)
+		again := false
+		for i := range set {
+			for _, o2 := range a.Offers {
+				if i == o2.At {
+					again = true
+				}
+			}
+		}
+		if o.Helper == nil && o.Sel != nil && !o.Sel.Blocking && o.Stopped == nil {
+			again = false
+		}
+		if again {
+			c.Fail(key, rule, "the stopch outcome continues the loop instead of returning", c.at(o.At))
+			continue
+		}
+		if len(returnsIn(set)) == 0 {
+			c.Fail(key, rule, "the stopch outcome reaches no return", c.at(o.At))
+			continue
+		}
+		c.Pass(key, rule, "stopch outcome returns", c.at(o.At))
+	}
+	if len(a.Offers) < 1 {
+		c.Fail("stop-in-select:"+shortFn(fn), rule, "no offer of a tick found in the loop", c.fnAt(fn))
+	}
 	c.Check(hasBlocking, "stop-in-select:"+shortFn(fn)+":handoff", "the tick is finally handed over by a blocking select", "present", "no blocking select hands the tick over", c.fnAt(fn))
 }
 
@@ -1017,6 +1010,9 @@ func c02StopInitiator(c *Ctx, a *attackAnchors) {
 				}
 				b, isConst := constBool(st.Val)
 				if !isConst {
+					if loadedCell(st.Val) == ssa.Value(al) {
+						return // `return flag` with a named result re-stores the flag into itself
+					}
 					bad = true
 					return
 				}
